@@ -264,7 +264,9 @@ def run_case(case, ctx):
         ctx.check(all(bool(np.all(np.abs(n_ - 1.0) <= 1e-10)) for n_ in nn), "cp_als", "NORMAL-FORM",
                   lambda: f"factor columns are not unit 2-norm: {[n_.tolist() for n_ in nn]}")
         ctx.check(not (M.weights < 0).any() and not (np.diff(M.weights) > 1e-12).any(), "cp_als", "NORMAL-FORM", f"weights not non-negative descending: {M.weights.tolist()}")
-        ctx.check(out["iters"] + 1 <= mi, "cp_als", "ITERS", f"iters {out['iters']} exceeds maxiters {mi}")
+        # the limit is judged on the sweeps actually observed (the MTTKRP log below) and on the reported count under either numbering
+        # (index of the last sweep, or number of sweeps)
+        ctx.check(out["iters"] <= mi, "cp_als", "ITERS", f"iters {out['iters']} exceeds maxiters {mi}")
         # (with stoptol=0 the unchanged code always uses every iteration; the property only promises that the limit is respected, so an
         # implementation that stops once the fit no longer changes is not judged)
         # least-squares normal equations of the mode updated last
@@ -282,10 +284,16 @@ def run_case(case, ctx):
             ctx.check(resid <= 1e4 * EPS * cond * sc, "cp_als", "NORMAL-EQUATIONS",
                       f"last-updated mode {n}: ||X_(n) KR - B G|| = {resid:.3e} (scale {sc:.3e}, cond {cond:.3e})", maxiters=mi)
         # MTTKRP log: count and first-call factors equal the returned initial guess
-        ctx.check(len(log) == (out["iters"] + 1) * len(do), "cp_als", "CALL-COUNT", f"{len(log)} MTTKRP calls for {out['iters'] + 1} sweeps over {len(do)} modes")
+        nsweeps = len(log) // max(1, len(do))
+        whole = len(log) == nsweeps * len(do) and nsweeps >= 1
+        if whole:
+            ctx.check(nsweeps <= mi, "cp_als", "ITERS", f"{nsweeps} sweeps ({len(log)} MTTKRP calls over {len(do)} modes) exceed maxiters {mi}")
+            ctx.check(out["iters"] in (nsweeps - 1, nsweeps), "cp_als", "ITERS", f"reported iters {out['iters']} but {nsweeps} sweeps were performed")
+        else:
+            ctx.tag("mttkrp-log-is-not-whole-sweeps")        # (an implementation may evaluate further MTTKRPs: then the log says nothing about sweeps)
         if log:
             first = log[0]
             ok = first[0] == do[0] and all(k == first[0] or np.array_equal(first[1][k], Mi.factor_matrices[k]) for k in range(N))
             ctx.check(ok, "cp_als", "WRONG-INIT", "factors passed to the first MTTKRP are not the returned initial guess")
             seq = [c[0] for c in log]
-            ctx.check(seq == do * (out["iters"] + 1), "cp_als", "MODE-ORDER", f"modes updated in order {seq[:2 * len(do)]}, requested {do}")
+            ctx.check((not whole) or seq == do * nsweeps, "cp_als", "MODE-ORDER", f"modes updated in order {seq[:2 * len(do)]}, requested {do}")
